@@ -52,6 +52,17 @@ def scenarios(rep, tier, seed):
     scns += S.reload_scenarios(random.Random(seed * 1000003 + 306), 120 if thorough else 32, kind="sup")
     scns += S.reload_scenarios(random.Random(seed * 1000003 + 307), 40 if thorough else 8, kind="semi")
     scns += S.bootstrap_scenarios(random.Random(seed * 1000003 + 308), 80 if thorough else 20, nq=6)
+    # class labels that do not start at 0, and a query so far away that its squared differences overflow (every distance from it is
+    # infinite: all training samples tie, so any training label is a correct answer - a placeholder label is not)
+    rng9 = random.Random(seed * 1000003 + 309)
+    for i in range(120 if thorough else 30):
+        kind = "semi" if i % 4 == 3 else "sup"
+        scn = S.random_float_scenario(rng9, kind=kind, metric=("euclidean", "squared_euclidean", "log_squared_euclidean", "manhattan")[i % 4], n=rng9.randrange(3, 10), nu=(2 if kind == "semi" else 0), nq=4, mode="metric", classes=rng9.choice([2, 3]))
+        scn["label_offset"] = 1 + i % 2
+        scn["Z"].append([1e200] * len(scn["Z"][0]))
+        scn["Q"] = scn["Q"] + [len(scn["Z"]) - 1]
+        scn["allow_inf_queries"] = True
+        scns.append(scn)
     return scns
 
 
